@@ -194,6 +194,10 @@ class Engine:
             self._expr_raises(s, state, out)
             ok = self.a.branch(s.test, True, state)
             bad = self.a.branch(s.test, False, state)
+            if bad is not None and hasattr(self.a, "assert_holds") and self.a.assert_holds(s, state):
+                bad = None          # an assertion of something the path already guarantees (a defensive no-op): it has no failing way out
+                if getattr(self.a, "IMPLIED_ASSERT_ADDS_NOTHING", False):
+                    ok = state      # ... and it adds nothing to the path condition
             if bad is not None:
                 out.raises.append((bad, "AssertionError", s))
             if ok is not None:
